@@ -163,10 +163,14 @@ def matchedIgnore (o : Opts) (levels : List Level) (curDir : Bytes) (absBase : O
     (explicit : List Gi) (global : Gi) (path : Bytes) (isDir : Bool) : M3 :=
   let anyGit := !o.requireGit || levels.any (·.hasGit)
   let a2 := foldLevels o levels curDir absBase path isDir
-  let mExplicit := explicitLoop explicit path isDir
+  let m_custom_ignore := a2.custom
+  let m_ignore := a2.ignore
+  let m_gi := a2.gi
+  let m_gi_exclude := a2.exclude
+  let m_explicit := explicitLoop explicit path isDir
   -- `IgnoreBuilder::build`: the global matcher is empty unless `git_global`
-  let mGlobal := if anyGit then (if o.gitGlobal then global else Gi.empty).matched path isDir else .none
-  a2.custom.or (a2.ignore.or (a2.gi.or (a2.exclude.or (mGlobal.or mExplicit))))
+  let m_global := if anyGit then (if o.gitGlobal then global else Gi.empty).matched path isDir else .none
+  m_custom_ignore.or (m_ignore.or (m_gi.or (m_gi_exclude.or (m_global.or m_explicit))))
 
 /-- `Override::matched` (`ov` = the inner gitignore-style matcher, `numWhitelists` of that matcher) -/
 def overrideMatched (ov : Gi) (numWhitelists : Nat) (path : Bytes) (isDir : Bool) : M3 :=
@@ -237,21 +241,21 @@ def skipEntry (o : Opts) (m : Matchers) (levels : List Level) (curDir : Bytes) (
 
 structure Flags where
   hidden : Bool
-  noIgnoreDot : Bool
-  noIgnoreExclude : Bool
-  noIgnoreFiles : Bool
-  noIgnoreGlobal : Bool
-  noIgnoreParent : Bool
-  noIgnoreVcs : Bool
-  noRequireGit : Bool
+  no_ignore_dot : Bool
+  no_ignore_exclude : Bool
+  no_ignore_files : Bool
+  no_ignore_global : Bool
+  no_ignore_parent : Bool
+  no_ignore_vcs : Bool
+  no_require_git : Bool
   deriving DecidableEq, Repr
 
 def Flags.default : Flags := ⟨false, false, false, false, false, false, false, false⟩
 
 /-- `--no-ignore` -/
 def Flags.noIgnore (f : Flags) : Flags :=
-  { f with noIgnoreDot := true, noIgnoreExclude := true, noIgnoreGlobal := true, noIgnoreParent := true,
-           noIgnoreVcs := true }
+  { f with no_ignore_dot := true, no_ignore_exclude := true, no_ignore_global := true, no_ignore_parent := true,
+           no_ignore_vcs := true }
 
 /-- `-u`, `-uu` (`-uuu` adds `--binary`, which does not concern the walk) -/
 def Flags.unrestricted (f : Flags) (n : Nat) : Flags :=
@@ -261,16 +265,16 @@ def Flags.unrestricted (f : Flags) (n : Nat) : Flags :=
 /-- the `WalkBuilder` settings -/
 def walkOpts (f : Flags) : Opts :=
   { hidden := !f.hidden,
-    parents := !f.noIgnoreParent,
-    ignore := !f.noIgnoreDot,
-    gitGlobal := !f.noIgnoreVcs && !f.noIgnoreGlobal,
-    gitIgnore := !f.noIgnoreVcs,
-    gitExclude := !f.noIgnoreVcs && !f.noIgnoreExclude,
-    requireGit := !f.noRequireGit,
-    hasCustomNames := !f.noIgnoreDot }          -- `.rgignore` is added unless `--no-ignore-dot`
+    parents := !f.no_ignore_parent,
+    ignore := !f.no_ignore_dot,
+    gitGlobal := !f.no_ignore_vcs && !f.no_ignore_global,
+    gitIgnore := !f.no_ignore_vcs,
+    gitExclude := !f.no_ignore_vcs && !f.no_ignore_exclude,
+    requireGit := !f.no_require_git,
+    hasCustomNames := !f.no_ignore_dot }          -- `.rgignore` is added unless `--no-ignore-dot`
 
 /-- are the `--ignore-file` arguments handed to the builder -/
-def useIgnoreFiles (f : Flags) : Bool := !f.noIgnoreFiles
+def useIgnoreFiles (f : Flags) : Bool := !f.no_ignore_files
 
 /-! ### one walk root (`walk.rs`: `add_parents(root)`, then `add_child` per directory entered) -/
 
